@@ -131,18 +131,46 @@ impl Runner {
             // the long-lived handle may lag; refresh it (that is what a session user does)
             let _ = self.ds.checkout_latest().await;
         }
-        let p = gen_pred(&mut self.rng, &self.st.cols.clone(), self.gen.next_k, 1);
-        let o = ScanOpts { filter: Some(p.sql()), ..Default::default() };
-        let a = scan(&self.ds, &o).await;
-        let b = scan(&fresh, &o).await;
-        match (a, b) {
-            (Ok((_, x)), Ok((_, y))) => {
-                if sorted(&x) != sorted(&y) {
-                    self.res.violate("C38", "O-cache-diff", &format!("shared-vs-fresh-session:{}", what.split(':').next().unwrap_or(what)), self.step, format!("after {}: filter `{}` through the shared session vs a fresh session: {}", what, p.sql(), diff_rows(&y, &x)));
+        // one fresh predicate over all columns, one over the indexed columns (if any), plus the
+        // indexed predicates of earlier steps again: index pages cached for them must not be served
+        // stale after compaction / remap / optimisation. Every query runs twice through the shared
+        // session (the second time from its caches).
+        let mut preds = vec![gen_pred(&mut self.rng, &self.st.cols.clone(), self.gen.next_k, 1)];
+        let icols: Vec<ColDef> = self.st.cols.iter().filter(|c| self.st.indices.iter().any(|i| i.column == c.name)).cloned().collect();
+        self.cache_preds.retain(|p| {
+            let mut pc = BTreeSet::new();
+            p.columns(&mut pc);
+            pc.iter().all(|c| self.st.col(c).is_some())
+        });
+        if !icols.is_empty() {
+            let np = gen_pred(&mut self.rng, &icols, self.gen.next_k, 1);
+            self.cache_preds.push(np);
+            if self.cache_preds.len() > 4 {
+                self.cache_preds.remove(0);
+            }
+        }
+        preds.extend(self.cache_preds.iter().cloned());
+        for p in preds.iter() {
+            let o = ScanOpts { filter: Some(p.sql()), ..Default::default() };
+            let b = scan(&fresh, &o).await;
+            for pass in 0..2 {
+                let a = scan(&self.ds, &o).await;
+                self.res.probe("cache-diff-queries");
+                match (a, &b) {
+                    (Ok((_, x)), Ok((_, y))) => {
+                        if sorted(&x) != sorted(y) {
+                            let tags = self.query_tags(p);
+                            self.res.violate("C38", "O-cache-diff", &format!("shared-vs-fresh-session:{}{}{}", what.split(':').next().unwrap_or(what), if pass == 1 { ":second-read" } else { "" }, tags), self.step, format!("after {}: filter `{}` through the shared session (read {}) vs a fresh session: {}", what, p.sql(), pass + 1, diff_rows(y, &x)));
+                            break;
+                        }
+                    }
+                    (Err(e), Ok(_)) => {
+                        self.res.violate("C38", "O-cache-diff", &format!("shared-session-error:{}", err_class(&e.to_string())), self.step, format!("after {}: filter `{}` fails only through the shared session: {}", what, p.sql(), e));
+                        break;
+                    }
+                    _ => {}
                 }
             }
-            (Err(e), Ok(_)) => self.res.violate("C38", "O-cache-diff", &format!("shared-session-error:{}", err_class(&e.to_string())), self.step, format!("after {}: filter `{}` fails only through the shared session: {}", what, p.sql(), e)),
-            _ => {}
         }
         use lance_index::DatasetIndexExt;
         if let (Ok(ia), Ok(ib)) = (self.ds.load_indices().await, fresh.load_indices().await) {
